@@ -650,13 +650,27 @@ namespace sim
 			// +----+------+------+----------+----------+----------+
 
 			char const* buf = m_udp_buffer.data();
+			if (bytes_transferred < 4)
+			{
+				std::printf("truncated UDP ASSOCIATE header (%d bytes)\n", int(bytes_transferred));
+				receive_next();
+				return;
+			}
 			if (buf[2] != 0) std::printf("fragment != 0, not supported\n");
 
 			int const atyp = buf[3];
 			if (atyp == 3)
 			{
 				// hostname
-				int const len = buf[4];
+				// the length and the name it announces must be in the datagram
+				// (also, the length is not a signed number)
+				int const len = bytes_transferred < 5 ? 0 : std::uint8_t(buf[4]);
+				if (bytes_transferred < std::size_t(5 + len + 2))
+				{
+					std::printf("truncated UDP ASSOCIATE header (%d bytes, hostname)\n", int(bytes_transferred));
+					receive_next();
+					return;
+				}
 
 				buf += 5;
 				bytes_transferred -= 5;
@@ -711,6 +725,12 @@ namespace sim
 			else if (atyp == 1)
 			{
 				// IPv4
+				if (bytes_transferred < 10)
+				{
+					std::printf("truncated UDP ASSOCIATE header (%d bytes, IPv4)\n", int(bytes_transferred));
+					receive_next();
+					return;
+				}
 				std::uint32_t addr = buf[4] & 0xff;
 				addr <<= 8;
 				addr |= buf[5] & 0xff;
